@@ -47,7 +47,7 @@ def runGuardsB (B : Backend) (cfg : Cfg) (w : World) (s : SState) (arg : PPath) 
     | .pass => runGuardsB B cfg w s arg gs
     | r => r
 
-def workerB (B : Backend) (w : World) (s : SState) (target : Path) (v : Verb) (payload : Bytes) :
+def workerBK (k : Nat) (B : Backend) (w : World) (s : SState) (target : Path) (v : Verb) (payload : Bytes) :
     World × SState × Out :=
   if !s.dataConn then
     (w, s, { replies := [425] })
@@ -57,17 +57,21 @@ def workerB (B : Backend) (w : World) (s : SState) (target : Path) (v : Verb) (p
     | .retr =>
       match B.openFile w.fs target 0 with
       | none => (w, s', { replies := [451] })
-      | some (_, c, _) => (w, s', { replies := [226], data := c.drop s.restartOffset })
+      | some (_, c, _) => (w, s', { replies := [226], data := c.drop k })
     | .stor | .appe =>
-      let mode := if s.restartOffset ≠ 0 then 3 else (if v = .stor then 1 else 2)
+      let mode := if k ≠ 0 then 3 else (if v = .stor then 1 else 2)
       match B.openFile w.fs target mode with
       | none => (w, s', { replies := [451] })
       | some (fs', c, pos) =>
-        let pos' := if s.restartOffset ≠ 0 then s.restartOffset else pos
+        let pos' := if k ≠ 0 then k else pos
         ({ w with fs := fs'.set target (.file (Fs.writeAt c pos' payload)) }, s', { replies := [226] })
     | .list => (w, s', { replies := [226], listing := some ((B.children w.fs target).map (fun p => p.getLast?.getD [])) })
     | .mlsd => (w, s', { replies := [200], listing := some ((B.children w.fs target).map (fun p => p.getLast?.getD [])) })
     | _ => (w, s', {})
+
+def workerB (B : Backend) (w : World) (s : SState) (target : Path) (v : Verb) (payload : Bytes) :
+    World × SState × Out :=
+  workerBK (xferOffset v s) B w s target v payload
 
 def bodyB (B : Backend) (cfg : Cfg) (w : World) (s : SState) (v : Verb) (rest : Str) (arg : PPath)
     (payload : Bytes) : World × SState × Out :=
@@ -156,7 +160,7 @@ def runVerbB (B : Backend) (cfg : Cfg) (w : World) (s0 : SState) (v : Verb) (res
 def dispatchB (B : Backend) (cfg : Cfg) (w : World) (s : SState) (name rest : Str) (payload : Bytes) :
     World × SState × Out :=
   match verbOf name with
-  | none => (w, s, { replies := [502] })
+  | none => (w, resetRestart name s, { replies := [502] })
   | some v => runVerbB B cfg w (resetRestart name s) v rest payload
 
 def step0B (B : Backend) (cfg : Cfg) (w : World) (s : SState) : Event → World × SState × Out
